@@ -12,6 +12,8 @@ from parts import py_kernels as PK
 
 H = "harness.py.npkernels:"
 NP_STUBS = [
+    "pysym/numpy: an array with a structured dtype is a logical array whose elements are field-value lists; its memory image places every field at the dtype's offset, padding bytes 0 "
+    "(natively np.zeros + field-wise assignment); np.ndarray(shape, structured dtype) yields such an array, element assignment takes a tuple",
     "pysym/numpy: arrays handed to the writers are logical arrays with an explicit memory layout (strides), implementing shape / flat / ravel(order) / flags / tobytes / data as numpy defines them; "
     "np.ndarray(shape, dtype) and np.int16(x) etc. on symbolic values yield such arrays / numpy integer scalars; natively the real numpy objects run, and every path's observations "
     "(flags, strides, all four ravel orders, flat, tobytes, data, indexing) are compared with what real numpy returned",
@@ -98,6 +100,19 @@ def _arr_jobs(quick, b, N):
             add(kind, "int16", (1, 3), L2, 2)
             add(kind, "uint8", (3, 1), L2)
             add(kind, "int16", (2, 3, 2), L3)
+    # arrays of records (structured dtypes): the field types are chosen by the solver, so aligned dtypes with and without padding occur
+    from harness.py import npkernels as NK
+    pool2 = NK.REC_PRIMS[:4] if quick else NK.REC_PRIMS
+    for kind in ARR_KINDS:
+        jobs.append(_job("h_record_array_write", "record-array.write:%s:2-fields" % kind, b, kind=kind, pool=(pool2 if kind == "ndarray" else NK.REC_PRIMS[:2]) if quick else pool2, nfields=2,
+                         shape=[2, 2] if kind == "ndarray" else [2], layouts=["C", "F", "T"] if kind == "ndarray" else ["C"], N=N))
+        jobs.append(_job("h_record_array_read", "record-array.read:%s:2-fields" % kind, b, kind=kind, pool=(pool2 if kind == "ndarray" else NK.REC_PRIMS[:2]) if quick else pool2, nfields=2,
+                         shape=[2] if kind != "fixedarray" else [1, 2], N=N))
+    jobs.append(_job("h_record_array_write", "record-array.write:ndarray:3-fields", b, kind="ndarray", pool=NK.REC_PRIMS[:2] if quick else NK.REC_PRIMS[:4], nfields=3, shape=[2], layouts=["C"], N=N))
+    jobs.append(_job("h_record_array_read", "record-array.read:ndarray:3-fields", b, kind="ndarray", pool=NK.REC_PRIMS[:2] if quick else NK.REC_PRIMS[:4], nfields=3, shape=[2], N=N))
+    if quick:
+        jobs.append(_job("h_record_array_write", "record-array.write:dynarray:mixed", b, kind="dynarray", pool=["uint8", "int16", "bool", "f64"], nfields=2, shape=[2], layouts=["C"], N=N))
+        jobs.append(_job("h_record_array_read", "record-array.read:dynarray:mixed", b, kind="dynarray", pool=["uint8", "int16", "bool", "f64"], nfields=2, shape=[2], N=N))
     return jobs
 
 
@@ -110,8 +125,12 @@ def c03_py_array_layouts(prop="C03", tier="quick", seed=0, **kw):
         j["limits"]["budget_s"] = 3 * b
         j["limits"]["max_decisions"] = 1000
     expected = ["array.write-no-exception", "array.bytes==row-major-reference", "array.read-no-exception", "array.read==written", "array.consumed==produced",
-                "array.shares-no-memory-with-reader-buffer", "int80-exact"]
-    bounds = {"buffer_size_N": [N], "serializers": ARR_KINDS, "shapes": "2x2, 2x3, 2x2x2, 2x1x2, 3 (thorough: + 3x2, 1x3, 3x1, 2x3x2)",
+                "array.shares-no-memory-with-reader-buffer", "int80-exact",
+                "record-array.write-no-exception", "record-array.bytes==field-by-field-reference", "record-array.read-no-exception", "record-array.read==written",
+                "record-array.consumed==produced", "record-array.shares-no-memory-with-reader-buffer"]
+    bounds = {"buffer_size_N": [N], "serializers": ARR_KINDS,
+              "arrays of records": "records of 2-3 fields, each field's type chosen by the solver from uint8 / float64 / int8 / float32 (thorough: + int16, bool): aligned numpy dtypes with interior "
+                                   "padding, trailing padding and without padding; arrays handed over with the aligned or the packed dtype, shapes 2 / 2x2 / 1x2, layouts C / Fortran / transposed; symbolic field values", "shapes": "2x2, 2x3, 2x2x2, 2x1x2, 3 (thorough: + 3x2, 1x3, 3x1, 2x3x2)",
               "layouts": "C order, Fortran order (np.asfortranarray), transposed view of a C-ordered array, axis-permuted views of a 3-d array, every-second-element slice (strided, not permuted); chosen by the solver",
               "elements": "symbolic: int8/uint8/float32/float64/complex64 (bulk path when C-contiguous, element-wise otherwise), bool and the varint-encoded integer types (element-wise); "
                           "varint-encoded elements range over the values with <= 1 (2) encoding bytes", "job_budget_s": b}
